@@ -8,6 +8,7 @@ import M4riProofs.W.DataMove
 import M4riProofs.Bridge
 import M4riProofs.GenTie
 import M4riProofs.GenTieMem
+import M4riProofs.GenTieSlice
 namespace M4ri.Props.C08
 open M4ri M4ri.Mzd
 
@@ -110,5 +111,14 @@ theorem transpose_involutive (B : BMat) (h : B.WF) : B.transpose.transpose = B :
     Each theorem: the generated C function run on the image of a well-formed model matrix = the image of the model
     function's result (hence also: no cell outside the addressed words changes) -/
 #check @M4ri.GenTieMem.mzdCopyRow_eq
+
+
+/-! ### tie to the C text: loops cut out of larger C functions (generated by vlib/ctrans.py on every check, proved equal to the
+    model in GenTieSlice.lean) -/
+#check @M4ri.GenTieSlice.extractUClear_eq
+#check @M4ri.GenTieSlice.extractLClear_eq
+#check @M4ri.GenTieSlice.extractLClear_square
+#check @M4ri.GenTieSlice.extractUClear_extractUInto
+#check @M4ri.GenTieSlice.extractLClear_extractLInto
 
 end M4ri.Props.C08
